@@ -13,7 +13,7 @@ def hook_commits():
 CHECKS = {
  "C05": dict(engine="lzsim-st", category="fault_enumeration", design_ref="DESIGN.md §3 C05",
    technique="deterministic simulation: seeded fault injection on the Read/Write seam (every truncation offset / every call index on small streams, sampled beyond), replayable case files",
-   text="Every reader and writer is driven through SimSource/SimSink. Per generated stream, every truncation offset and an error at every source/sink call index are enumerated (within a per-run budget, sampled beyond it), plus benign short/Interrupted I/O on every call. Oracle: truncation or a source error ends in Err (with the source's kind for persistent errors), bytes delivered before are a prefix of the original, output is bounded; benign I/O leaves decoded and compressed bytes identical; a sink error is returned by some writer call. Bounded enumeration on small streams plus seeded exploration: evidence, not proof.",
+   text="Every reader and writer is driven through SimSource/SimSink. Per generated stream (single streams of every format, and XZ files of 2-3 concatenated streams with stream padding read with multi-stream decoding on), every truncation offset and an error at every source/sink call index are enumerated (within a per-run budget, sampled beyond it), plus benign short/Interrupted I/O on every call. Oracle: truncation or a source error ends in Err (with the source's kind for persistent errors), bytes delivered before are a prefix of the original, output is bounded; benign I/O leaves decoded and compressed bytes identical; a sink error is returned by some writer call. Bounded enumeration on small streams plus seeded exploration: evidence, not proof.",
    note="Trusts the harness read/write loops (retry Interrupted like std's read_to_end/write_all) and the LZIP member-boundary rule; only x86_64; streams come from the crate's own writers."),
 }
 
@@ -43,7 +43,7 @@ st("C02", "exploration", "deterministic simulation over the Read/Write seams (hi
 st("C07", "exploration", "deterministic simulation: the call-history dimension itself (write partitions, empty writes, flushes; read buffer sequences incl. zero-length)",
    "Per generated (format, options, input) several write histories (one shot, byte-at-a-time, huge-then-tiny, random with flushes and empty writes) must all decode to the input; several read histories incl. zero-length destinations must all yield the same bytes. Covers every writer/reader and the filter writers/readers.")
 st("C12", "exploration", "deterministic simulation: concatenated streams/members with benign short/Interrupted reads on the padding scanner",
-   "1-5 XZ streams with different options joined by valid (0,4,8,12,16) or invalid (1,2,3,5,6,7) stream padding, 1-8 LZIP members; multi-stream reader must return the concatenation / reject bad padding, single-stream mode returns the first stream only.")
+   "1-5 XZ streams with different options joined (and followed) by valid (0,4,8,12,16) or invalid (1,2,3,5,6,7) stream padding, 1-8 LZIP members; multi-stream reader must return the concatenation / reject bad padding also behind the last stream, single-stream mode returns the first stream only and neither needs nor judges what follows it (another stream, malformed padding, arbitrary bytes).")
 st("C13", "exploration", "deterministic simulation: junk-filling allocator between repeated runs, write partitions as histories (MT part: schedules, see lzsim-mt mt.determ)",
    "Same input and options encoded three times with fresh non-zeroed memory filled with different patterns must be byte-identical; four write partitions (no flush) must give identical bytes for LZMA, LZIP and for LZMA2/XZ without chunk/block size.")
 st("C16", "exploration", "deterministic simulation: exact byte accounting on the source seam under random read sizes and short/Interrupted reads",
@@ -52,7 +52,7 @@ st("C18", "exploration", "deterministic simulation: post-run analysis of recorde
    "XZ index records and LZIP trailers must not exceed max(block/member size, dict) and must sum to the input; .lzma expected size: write beyond it fails, finish short of it fails, header carries the bytes written.")
 
 st("C03", "exploration", "deterministic simulation with liblzma (static C library) as the second party on a chunked byte pipe; inputs x options by seeded generation",
-   "ours->liblzma: .lzma (header), raw LZMA1 with end marker, raw LZMA2, .xz (all checks, block sizes, pre-filters) and .lz written under random histories are fed in random chunkings to lzma_alone_decoder / raw decoders / stream decoder / lzip decoder: StreamEnd, identical bytes, no input left. liblzma->ours: easy presets 0-9(+extreme), stream encoder with custom lc/lp/pb/dict/nice/mf/mode/depth, filter chains, FullFlush block boundaries, alone encoder, raw LZMA2/LZMA1, and LZIP members wrapped by the harness around liblzma's raw LZMA1; our readers use random buffer sizes and benign short/Interrupted sources.",
+   "ours->liblzma: .lzma (header), raw LZMA1 with end marker, raw LZMA2, .xz (all checks, block sizes, pre-filters) and .lz written under random histories are fed in random chunkings to lzma_alone_decoder / raw decoders / stream decoder / lzip decoder: StreamEnd, identical bytes, no input left. liblzma->ours: easy presets 0-9(+extreme), stream encoder with custom lc/lp/pb/dict/nice/mf/mode/depth, filter chains, FullFlush block boundaries, the threaded stream encoder (several blocks whose headers carry both size fields, 1-3 threads; its output does not depend on thread timing), alone encoder, raw LZMA2/LZMA1, and LZIP members wrapped by the harness around liblzma's raw LZMA1; our readers use random buffer sizes and benign short/Interrupted sources.",
    "liblzma is trusted as the reference. Restrictions that are liblzma's own: lc+lp<=4 for LZMA1, .lzma header dictionary sizes 2^n / 2^n+2^(n-1) only, no preset dictionaries through the bindings, raw LZMA1 needs the end marker.")
 st("C11", "exploration", "deterministic simulation: filter readers over SimSource with short/Interrupted reads and random buffer sizes (state across the 4096-byte refill), BCJ2 over four sources with independent schedules; liblzma and a harness BCJ2 encoder as references",
    "filter.inverse: BCJReader(BCJWriter(x)) == x and DeltaReader(DeltaWriter(x)) == x for 8 architectures, aligned start offsets incl. near 2^31/2^32, distances 1..256, inputs random / real executables / synthetic branch-dense code / lengths around 0, 4096, 8192. filter.ref: filtered bytes equal liblzma's filter output (LZMA2 as lossless carrier) and our reader decodes liblzma's filtered bytes. bcj2.roundtrip: a harness encoder (7-Zip Bcj2 format, conversion decisions drawn from the PRNG) produces four streams, BCJ2Reader over four SimSources with independent short/Interrupted schedules must return x.",
@@ -80,9 +80,9 @@ CHECKS["C14"] = dict(engine="lzsim-xcfg", category="exploration", design_ref="DE
    text="Default, std-without-optimization, no_std+optimization and no_std builds of the current tree execute the same case: compressed bytes (also across a 31-bit position wrap) and decode outcomes (bytes delivered, Ok/Err, error class) for valid, truncated, damaged and garbage streams must be identical; scalar vs SIMD renormalisation and assembly vs portable decode_direct_bits are compared directly on generated state.",
    note="x86_64 little-endian host only (AVX2/SSE4.1 as detected); aarch64 assembly, NEON and big-endian branches are not executed.")
 
-st("C15", "exploration", "deterministic simulation workloads under memory monitors: hook H5 shadow assertions in every run (the only monitor that sees the assembly's loads); thorough tier adds the same workload in an AddressSanitizer build and tiny encoder cases under Miri",
-   "Workloads that reach every unsafe block of the optimization feature (match extension at both window ends, window moves, finishing with < 8 bytes, SIMD renormalisation after the 31-bit position wrap, the assembly direct-bit reader running off the end of a damaged chunk) execute with shadow assertions that restate each block's precondition immediately before it; a violated precondition is reported as class oob. thorough: the scaled-down plan again under ASan (worker death = finding) and 64 tiny encode/decode cases under Miri.",
-   "Shadow assertions are hand-written restatements of the SAFETY comments; ASan cannot see asm! loads, Miri cannot execute asm!; x86_64 only.")
+st("C15", "exploration", "deterministic simulation workloads under memory monitors: the simulator's allocator puts every library allocation >= 4 KiB directly in front of an inaccessible page (a stray access - also one made by inline assembly - kills the worker and is attributed to the case), hook H5 shadow assertions, a second pass with an unoptimised build; thorough tier adds an AddressSanitizer build and tiny cases under Miri",
+   "Workloads that reach every unsafe block of the optimization feature (match extension at both window ends, input that fills the window buffer exactly, window moves, finishing with < 8 bytes, SIMD renormalisation after the 31-bit position wrap, the assembly direct-bit reader at every position in the last bytes of its buffer and at the end of chunks cut to many sizes, damaged chunks) run under guard pages and with shadow assertions that restate each block's precondition immediately before it. A part of every scenario runs again in an unoptimised (cargo dev profile) build, because the optimiser may legally move a load below the bounds test the source performs after it, so that an over-read present in the source does not exist in the optimised binary. thorough: the scaled-down plan again under ASan (worker death = finding) and 64 tiny encode/decode cases under Miri.",
+   "A guard page catches accesses behind the END of an allocation (up to alignment slack) of at least 4 KiB, not in front of it and not use after free (freed mappings are recycled). Shadow assertions are hand-written restatements of the SAFETY comments; ASan cannot see asm! loads, Miri cannot execute asm!; x86_64 only.")
 
 NOT_YET = {}
 for i in range(1, 20):
